@@ -1283,8 +1283,6 @@ impl Iterator for FileIterator<'_> {
             return None;
         }
 
-        // @todo: probably safe to hand out a reference instead of cloning, just a bit more painful
-        let file_entry = self.file_entries[self.count].clone();
         self.count += 1;
 
         let reader = payload::Reader::new(&mut self.archive, &self.file_entries);
@@ -1294,6 +1292,17 @@ impl Iterator for FileIterator<'_> {
                 if entry_reader.is_trailer() {
                     return None;
                 }
+
+                // the archive may omit files of the header (%ghost) or order them differently:
+                // the metadata is that of the file the entry itself names
+                let Some(index) = entry_reader.file_index(&self.file_entries) else {
+                    return Some(Err(Error::Io(io::Error::new(
+                        io::ErrorKind::InvalidData,
+                        "Archive entry does not belong to any file of the header",
+                    ))));
+                };
+                // @todo: probably safe to hand out a reference instead of cloning, just a bit more painful
+                let file_entry = self.file_entries[index].clone();
 
                 let mut content = Vec::new();
 
